@@ -199,6 +199,8 @@ class Fn:
         self.alen = {}              # declared lengths of array parameters (name -> cells); bounded mode when non-empty
         self.const_arrays = set()   # array parameters declared pointer-to-const
         self.steps = 0
+        self.inline_depth = 0
+        self.inline_stack = []
 
     def use_extern(self, name):
         if name not in self.externs:
@@ -540,6 +542,8 @@ class Fn:
             if callee["kind"] != "DeclRefExpr":
                 raise Unsupported("indirect call at %s" % self.where(n))
             fname = callee["referencedDecl"]["name"]
+            if (self.alen or self.spec) and fname in self.tu.funcs and not (fname in self.translated and self.translated[fname]["scalar_only"]):
+                return self.inline_call(fname, n, env)
             if fname in self.translated and not (self.translated[fname]["scalar_only"] and not self.translated[fname].get("externs")):
                 return self.call_translated(fname, n, env)
             if fname in ("a_copy", "a_move", "memcpy", "memmove", "__builtin_memcpy", "__builtin_memmove") and self.alen:
@@ -585,6 +589,50 @@ class Fn:
                 return "(%s %s)" % (self.use_extern(base), " ".join(args))
             raise Unsupported("call to %s at %s" % (fname, self.where(n)))
         raise Unsupported("expression %s at %s" % (k, self.where(n)))
+
+    def inline_call(self, fname, n, env):
+        """bounded mode: execute the body of a callee (from this or an extra source file) in place.  Arguments are evaluated in
+        the caller; cells of arrays and struct members are shared, the callee's variables live in their own scope.  The callee
+        must leave through a single return that is not inside a branch on data."""
+        callee = self.tu.funcs[fname]
+        params = [c for c in callee.get("inner", []) if c["kind"] == "ParmVarDecl"]
+        body = [c for c in callee["inner"] if c["kind"] == "CompoundStmt"][0]
+        actual = n["inner"][1:]
+        if len(actual) != len(params):
+            raise Unsupported("call to %s with %d arguments at %s" % (fname, len(actual), self.where(n)))
+        if self.inline_depth > 40:
+            raise Unsupported("inlining deeper than 40 calls at %s" % self.where(n))
+        cenv = {k: v for k, v in env.items() if k[0] != "var"}
+        for pd, a in zip(params, actual):
+            q = pd["type"]["qualType"]
+            v = self.expr(a, env)
+            if v is None:
+                raise Unsupported("struct argument in an inlined call to %s at %s" % (fname, self.where(n)))
+            if is_real_type(q.split("':'")[0].strip("'")) and not isinstance(v, Ptr):
+                v = self.real(v)
+            cenv[("var", pd.get("name", "_"))] = v
+            if not is_real_type(q.split("':'")[0].strip("'")):
+                self.int_vars.add(pd.get("name", "_"))
+        holder = {"rv": None, "done": False}
+        self.inline_stack.append(holder)
+        self.inline_depth += 1
+        saved_top, saved_k = self.top_stmts, self.k_end
+        self.top_stmts = body.get("inner", [])
+        try:
+            self.block(body.get("inner", []), cenv, lambda e_: self._inline_end(e_, holder))
+        finally:
+            self.inline_depth -= 1
+            self.inline_stack.pop()
+            self.top_stmts, self.k_end = saved_top, saved_k
+        fin = holder.get("env", cenv)
+        for k_, v_ in fin.items():
+            if k_[0] != "var":
+                env[k_] = v_
+        return holder["rv"]
+
+    def _inline_end(self, e_, holder):
+        holder["env"] = e_
+        return ""
 
     def call_translated(self, fname, n, env):
         sig = self.translated[fname]
@@ -753,6 +801,12 @@ class Fn:
                 if t.get("kind") == "LabelStmt" and t.get("declId") == target:
                     return self.block(self.top_stmts[i:], env, self.k_end)
             raise Unsupported("goto to a label that is not at the top level of the function at %s" % self.where(s))
+        if kind == "ReturnStmt" and self.inline_depth > 0:
+            inner = s.get("inner", [])
+            holder = self.inline_stack[-1]
+            holder["rv"] = self.expr(inner[0], env) if inner else None
+            holder["env"] = env
+            return ""
         if kind == "ReturnStmt":
             inner = s.get("inner", [])
             rv = self.real(self.expr(inner[0], env)) if inner else None
@@ -765,6 +819,8 @@ class Fn:
             if isinstance(cv, IntConst):          # decided at translation time
                 return self.block((then_s if cv.v else else_s) + rest, env, k)
             cond = self.boolean(cv)
+            if (self.returns(then_s) or self.returns(else_s)) and self.inline_depth > 0:
+                raise Unsupported("return inside a branch on data in an inlined callee at %s" % self.where(s))
             if self.returns(then_s) or self.returns(else_s):
                 # at least one arm leaves the function: each arm carries its own continuation (no duplication of `rest`
                 # unless both arms fall through, which only happens when one of them returns conditionally)
@@ -933,11 +989,17 @@ class Fn:
                 self._scan_written(c)
 
 
-def translate_file(path, include, cfg, names, extra=(), sigs=None, externs=None, real_size=8):
+def translate_file(path, include, cfg, names, extra=(), sigs=None, externs=None, real_size=8, extra_sources=()):
     """Returns (coq_text, {name: signature}, {name: error}) for the requested function names, in the given order.
     `sigs` (shared across calls) lets later files call functions translated from earlier ones; `externs` is the
     allow-list {name: arity} of body-less scalar functions that become function binders."""
     tu = TU(load_ast(path, include, cfg, extra))
+    for xs in extra_sources:            # bodies available for inlining in bounded translations
+        xt = TU(load_ast(xs, include, cfg, extra))
+        for k_, v_ in xt.funcs.items():
+            tu.funcs.setdefault(k_, v_)
+        for k_, v_ in xt.enums.items():
+            tu.enums.setdefault(k_, v_)
     out, errs = [], {}
     sigs = {} if sigs is None else sigs
     busy = set()
@@ -969,7 +1031,7 @@ def translate_file(path, include, cfg, names, extra=(), sigs=None, externs=None,
         busy.add(full)
         try:
             for callee in sorted(called_functions(node)):
-                if callee in tu.funcs and callee not in sigs and callee != nm:
+                if callee in tu.funcs and callee not in sigs and callee != nm and not (spec or alen):
                     ensure(callee)
             fn = Fn(tu, node, sigs)
             fn.extern_ok = dict(externs or {})
@@ -977,7 +1039,7 @@ def translate_file(path, include, cfg, names, extra=(), sigs=None, externs=None,
             fn.alen = alen
             fn._real_size = real_size
             if spec or alen:
-                fn.name = nm + "".join("_%s%d" % kv for kv in spec.items())
+                fn.name = nm + "".join("_%s%s" % (k_, str(v_).replace("-", "m")) for k_, v_ in spec.items())
             text, sig = fn.translate()
             sigs[full] = sig
             out.append("(* %s : inputs %s%s ; outputs: %s%s%s *)\n%s\n" % (
